@@ -26,7 +26,9 @@ RULE = ("(1) every integer in [0, 2^22) quick / [0, 2^26) thorough in blocks "
         "generate-scales-info, volume-to-precomputed, compute-scales) is run "
         "in-process and scale-stats stdout is compared with the chunk files "
         "/ shard index entries found on disk and with the decoded byte "
-        "size; non-trivial when the dataset has >= 2 chunks.")
+        "size; plus 3 datasets whose scale lists 2-3 chunk sizes, written by "
+        "convert-chunks (chunks of every listed size); non-trivial when "
+        "the dataset has >= 2 chunks.")
 ASSUMPTIONS = [
     "counts are integers (the documented parameter type)",
     "a reported quantity '<num> <prefix>' claims the value num*1024^k "
@@ -273,6 +275,86 @@ def _eval_stats_in(col, case, d):
            "stats-ok/%d-scales" % len(info["scales"]) if ok else "stats-bad")
 
 
+MULTI = [((10, 6, 4), [[4, 4, 4], [2, 2, 2]], "uint16", 2),
+         ((8, 8, 8), [[8, 8, 8], [4, 4, 4], [4, 8, 2]], "uint8", 1),
+         ((5, 3, 2), [[4, 4, 4], [1, 1, 1]], "float32", 1)]
+
+
+def _eval_stats_multi(col, case):
+    """a scale listing several chunk sizes: convert-chunks writes the chunks
+    of every listed size; scale-stats must report exactly those"""
+    from neuroglancer_scripts import accessor, precomputed_io
+    d = sandbox.fresh_dir("c20m")
+    try:
+        size, css, dt, nch = (case["size"], case["chunk_sizes"],
+                              case["dtype"], case["channels"])
+        info = {"type": "image", "data_type": dt, "num_channels": nch,
+                "scales": [{"key": "full", "size": list(size),
+                            "chunk_sizes": css, "resolution": [1, 1, 1],
+                            "voxel_offset": [0, 0, 0], "encoding": "raw"}]}
+        src, dst = os.path.join(d, "src"), os.path.join(d, "dst")
+        os.makedirs(src)
+        acc = accessor.get_accessor_for_url(src, {"flat": True,
+                                                  "gzip": False})
+        pio = precomputed_io.get_IO_for_new_dataset(info, acc)
+        c, z, y, x = np.meshgrid(np.arange(nch), np.arange(size[2]),
+                                 np.arange(size[1]), np.arange(size[0]),
+                                 indexing="ij")
+        vol = (1 + x + 3 * y + 7 * z + 11 * c).astype(dt)
+        for cs in css:
+            for cc in pipeline.chunk_grid(size, cs):
+                pio.write_chunk(np.ascontiguousarray(
+                    vol[:, cc[4]:cc[5], cc[2]:cc[3], cc[0]:cc[1]]), "full",
+                    cc)
+        r = sandbox.run_cli("convert_chunks", ["--copy-info", "--flat",
+                                               "--no-gzip", src, dst])
+        if not r.ok:
+            col.ev(1, 0, "stats-pipeline-failed/convert_chunks")
+            return
+        r = sandbox.run_cli("scale_stats", [dst])
+        if not r.ok:
+            col.ev(1, 1, "stats-command-failed")
+            col.violation("C20/scale-stats/command-failed", case,
+                          "status 0", r.brief())
+            return
+        coords, _ = pipeline.list_chunk_files(os.path.join(dst, "full"))
+        rd = pipeline.open_dataset(dst, {"flat": True, "gzip": False})
+        actual_chunks = len(set(coords))
+        actual_bytes = sum(rd.read_chunk("full", cc).nbytes
+                           for cc in set(coords))
+        rep = []
+        total = None
+        for ln in r.out.splitlines():
+            m = _LINE.match(ln)
+            if m:
+                rep.append((int(m.group(4).replace(",", "")), m.group(6)))
+            m = _TOTAL.match(ln)
+            if m:
+                total = (int(m.group(1).replace(",", "")), m.group(3))
+        ok = True
+        if len(rep) != len(css):
+            ok = False
+            col.violation("C20/scale-stats/multi-chunk-size/lines", case,
+                          "%d lines" % len(css), r.out[-400:])
+        elif sum(n for n, _ in rep) != actual_chunks:
+            ok = False
+            col.violation("C20/scale-stats/multi-chunk-size/chunk-count",
+                          case, actual_chunks, [n for n, _ in rep])
+        if total is None or total[0] != actual_chunks:
+            ok = False
+            col.violation("C20/scale-stats/multi-chunk-size/total-chunk-"
+                          "count", case, actual_chunks, total)
+        elif not _size_matches(total[1], actual_bytes):
+            ok = False
+            col.violation("C20/scale-stats/multi-chunk-size/total-size",
+                          case, "%d bytes decoded from the chunk files"
+                          % actual_bytes, total[1] + "B")
+        col.ev(1, 1, "stats-ok/multi-chunk-size" if ok else "stats-bad")
+    finally:
+        sandbox.drop_captured_exit_handlers()
+        sandbox.rm(d)
+
+
 def units(tier):
     top = (1 << 22) if tier == "quick" else (1 << 26)
     step = BLOCK if tier == "quick" else BLOCK * 8
@@ -284,6 +366,9 @@ def units(tier):
     sc = _stats_cases(tier)
     for i in range(0, len(sc), 6):
         u.append({"kind": "statsbatch", "cases": sc[i:i + 6]})
+    u.append({"kind": "statsbatch", "cases": [
+        {"kind": "stats-multi", "size": list(sz), "chunk_sizes": css,
+         "dtype": dt, "channels": nch} for sz, css, dt, nch in MULTI]})
     return u
 
 
@@ -304,7 +389,10 @@ def run_unit(u):
         col.sample(_count_case(u["w"][0][0]))
     else:
         for case in u["cases"]:
-            _eval_stats(col, case)
+            if case["kind"] == "stats-multi":
+                _eval_stats_multi(col, case)
+            else:
+                _eval_stats(col, case)
         col.sample(u["cases"][0])
     return col.result()
 
@@ -313,6 +401,8 @@ def replay(case):
     col = Collector()
     if case["kind"] == "count":
         _run_range(col, case["n"], case["n"] + 1)
+    elif case["kind"] == "stats-multi":
+        _eval_stats_multi(col, case)
     else:
         _eval_stats(col, case)
     return col.records()
